@@ -245,10 +245,12 @@ func Verif_C42_Hashed() {
 		norm = "[" + host + "]:" + port
 	}
 	a := addr{host: host, port: port}
-	want := bytes.Equal(hashHost(norm, salt), hash)
-	verifrt.Assert(hh.match(a) == want, "hashed entry matches iff HMAC(salt, normalised address) equals the stored hash")
+	// First the statement that does not depend on the value of the uninterpreted HMAC (so a
+	// counterexample replays with the real HMAC): the entry made for an address matches it.
 	own := &hashedHost{salt: salt, hash: hashHost(norm, salt)}
 	verifrt.Assert(own.match(a), "the entry made for an address matches it")
+	want := bytes.Equal(hashHost(norm, salt), hash)
+	verifrt.Assert(hh.match(a) == want, "hashed entry matches iff HMAC(salt, normalised address) equals the stored hash")
 	verifrt.Reach("hashed")
 	_, err = newHashedHost("|2" + enc[2:])
 	verifrt.Assert(err != nil, "hash type other than 1 rejected")
